@@ -48,6 +48,19 @@ func calls(n ast.Node) []string {
 		if _, ok := x.(*ast.FuncLit); ok && x != n {
 			return false
 		}
+		// a deferred or spawned call does not happen where it is written: fail closed
+		switch d := x.(type) {
+		case *ast.DeferStmt:
+			for range calls(d.Call) {
+				out = append(out, "deferredOrSpawned")
+			}
+			return false
+		case *ast.GoStmt:
+			for range calls(d.Call) {
+				out = append(out, "deferredOrSpawned")
+			}
+			return false
+		}
 		c, ok := x.(*ast.CallExpr)
 		if !ok {
 			return true
